@@ -17,22 +17,82 @@ branch is NOT translated (e.g. the `fields=None` branch of tsdb.split); the theo
 
 ACCEPTED SUBSET
   statements   `x = e`, `x: T = e`, `a, b = e` (e a tuple), `x += e` (and - *), `if/elif/else`, `for x in e` /
-               `for a, b in e` (no else-clause), `break`, `continue`, `pass`, `return [e]`, `raise E` / `raise E(args)`,
-               `xs.append(e)` / `xs.extend(e)` on a LOCAL list, `xs[i] = e` on a LOCAL list, a docstring.
+               `for a, b in e` (no else-clause), `while c:` (no else-clause; FUEL, below), `break`, `continue`, `pass`,
+               `return [e]`, `raise E` / `raise E(args)`, a docstring; in-place changes of a LOCAL or PARAMETER
+               container NAME: `xs.append(e)`, `xs.extend(e)`, `xs[i] = e`, `s.add(e)`, `s.update(e)`, `d[k] = e`,
+               `d.setdefault(k, e)` (as a statement), `x = xs.popleft()` / `xs.pop(0)` / `xs.pop()`; a call
+               `f(…)` / `x = f(…)` of a translated function that mutates its arguments (OUT-PARAMETERS, below).
   expressions  str/int/bool/None constants, names (locals, parameters, module-level str/int/bool/None constants — read
-               from the live module at translation time), list/tuple displays, `+ - *` on int, `+` on str/list,
-               `seq * int`, `//` and `%` on int, unary `-`/`not`, `and`/`or` in tests or between bools (no raising operand
-               after the first), comparisons `== != < <= > >=` (order: int only), `is None`, `is not None`, `in`/`not in`
-               (list, str-in-str, dict), conditional expressions, `xs[i]`, `xs[a:b]`, `t[k]` (tuple, constant k),
-               attribute of a Struct, single-`for` list comprehensions / generator arguments (pure `if` filters),
-               calls of: len str(str|int) tuple list map(f, xs) range enumerate zip sum min max abs bool int(int),
-               str methods replace split(const non-empty sep) rstrip/lstrip/strip(chars) join startswith endswith,
-               dict.get, array.array('i', xs), other functions of the SAME translate_module call listed EARLIER in `specs`.
-  refused      while, try, with, assert, del, global, lambda, nested def/class, yield, f-strings, % / .format
-               formatting, float and `/`, `**`, bit operators, sets, dict displays, star-args, chained assignment,
-               comparison of str/list by order, `s.split()` / `rstrip()` without argument, str.lower/upper (Unicode
-               tables), sorted, any call/attribute/method not listed, a name first bound inside a nested block and used
-               after it, a loop variable used after its loop, assigning to a loop variable.
+               from the live module at translation time), list/tuple/set/dict displays, `+ - *` on int, `+` on str/list,
+               `seq * int`, `//` and `%` on int, `| & -` on sets, unary `-`/`not`, `and`/`or` in tests or between
+               bools (no raising operand after the first), comparisons `== != < <= > >=` (order: int, str by code
+               point; `<= >=` on sets = subset; `==` on sets = same elements; `==` on anything containing a dict or a
+               nested set is refused), `is None`, `is not None`, `in`/`not in` (list, set, str-in-str, dict),
+               conditional expressions, `xs[i]`, `xs[a:b]`, `t[k]` (tuple, constant k), attribute of a Struct,
+               list/set/dict comprehensions and generator arguments with ONE or TWO `for` clauses (pure `if` filters;
+               two clauses: pure throughout), f-strings and `'…'.format(…)` with plain `{}` / `{name}` fields of str
+               and int operands (no conversion, no format spec, no `{0}`),
+               calls of: len str(str|int) tuple list map(f, xs) range enumerate(xs[, start]) zip sum min max abs bool
+               int(int) set frozenset dict(pairs) sorted(xs) sorted(xs, key=f) (int/str elements resp. keys; stable)
+               any all next(iter(xs)) deque(xs), `Cls(a, b, …)` for a NamedTuple declared as Struct with `pyclass`,
+               str methods replace split(const non-empty sep) split() strip() lstrip() rstrip() (no argument: the
+               whitespace set PyRt.pyWhitespaceCodes) rstrip/lstrip/strip(chars) join startswith endswith format,
+               set methods union intersection difference issubset issuperset isdisjoint copy, dict.get,
+               `d.items()/keys()/values()` where something is iterated, a method of a Struct translated earlier,
+               array.array('i', xs), other functions of the SAME translate_module call listed EARLIER in `specs`, and the
+               function itself (RECURSION, with fuel).
+  refused      try, with, assert, del, global, lambda, nested def/class, yield, `%` formatting, format specs and
+               conversions, float and `/`, `**`, bit operators on ints, star-args, chained assignment, comparison of
+               lists by order, str.lower/upper (Unicode tables), sorted of tuples, mutual recursion, while/for-else,
+               three-clause comprehensions, any call/attribute/method not listed, a name first bound inside a nested
+               block and used after it, a loop variable used after its loop, assigning to a loop variable, and every
+               use of a SET whose result could depend on its iteration order (below).
+
+SEMANTIC RULES ADDED IN ROUND 2
+  * SETS are duplicate-free lists in insertion order (PyRt.pySetAdd …); CPython iterates a set in an order this model
+    does not know.  A set may therefore be iterated ONLY where the result is the same for every order: as the argument
+    of set()/frozenset()/update/union/intersection/difference/issubset/…, of any()/all()/sum() over PURE elements,
+    of sorted() WITHOUT key (distinct int/str elements have one sorted order), in a set comprehension, and in a `for`
+    loop whose body consists only of `t.add(e)` / `t.update(e)` on sets, `pass`, `continue` and `if c:` over such
+    statements, where no `c`/`e` reads a set the loop changes and none can raise (no indexing, arithmetic or calls
+    other than len/str/tuple).  Everything else — list(s), tuple(s), ', '.join(s), next(iter(s)), s.pop(), a loop that
+    appends, sorted(s, key=…), a raising element — is refused.  Elements/keys must be hashable scalars: str, int, bool,
+    None, tuples/Optionals of those.  Results of type set are compared as sets.
+  * DICTS are association lists in insertion order, which Python guarantees: `d[k] = v` keeps the position of an
+    existing key (pyDictSet), dict(pairs)/displays/comprehensions insert left to right (pyDictOfList), items()/keys()/
+    values() iterate in that order.  Building a dict from a set iteration is refused (order).
+  * OUT-PARAMETERS: a list/set/dict PARAMETER changed in place (append, extend, item assignment, add, update,
+    setdefault, pop, or handed on to a mutating callee) is returned: the Lean function returns `(result, p1', p2', …)`
+    (only the new values when the Python result is None).  A caller in the same module must pass DISTINCT local
+    container names for the mutated parameters, none of which occurs inside another container argument, and the call
+    must be a statement `f(…)` or the whole right-hand side of `x = f(…)`; the locals are re-bound to the returned
+    values.  A mutated parameter may not be returned, re-bound, or bound to another name.  ASSUMPTION for callers
+    outside the module: the objects passed for mutated parameters are pairwise distinct and not reachable from the
+    other arguments.
+  * FRESHNESS (repairs a hole of round 1): a name that is mutated may only be bound to a NEW container (display,
+    comprehension, `+`, slice, list()/set()/dict()/sorted()/copy(), a translated callee all of whose returns are new
+    containers); `zs = xs; zs.append(1)` is refused.  A mutated local may be passed to a translated callee only at a
+    mutated position or when the callee's result cannot alias it.
+  * FUEL: a function that contains `while`, calls itself, or calls a function with fuel takes `fuel : Nat` FIRST and
+    lives in `Except PyErr`.  `while c: body` = `for _ in List.replicate fuel () do (if !c then (done := true; break);
+    body)` followed by `if !done then throw PyErr.fuel` (so `k` rounds need fuel ≥ k + 1; `break` in the body also
+    sets `done`).  A recursive function is `match fuel with | 0 => throw PyErr.fuel | fuel + 1 => body`, the
+    recursive calls (and the loops and fuel-taking callees of the body) get the predecessor.  `PyErr.fuel` is not a
+    Python exception; more fuel never changes an answer other than `PyErr.fuel`.  Equivalence theorems are stated
+    for fuel above a bound computed from the input.
+  * FLOW NARROWING: `if x is None: <block that always leaves — return/raise/continue/break>` without `else`, on an
+    Optional local/parameter that is not re-assigned: the rest of the enclosing block is translated in the `some`
+    branch with `x` narrowed.  `x is None` on a name whose declared type is NOT Optional is decided at translation
+    time (never None: the Spec's types describe the call shape) and the dead branch is not translated.
+  * FORMATTING: `{}` / `{name}` / f-string fields of str (itself) and int (pyStrInt = decimal, '-' sign); the arguments
+    are evaluated first, left to right; `{{`/`}}` are literal braces.  bool/None/float/containers: refused.
+  * `s.split()` = runs of whitespace separate, no empty strings; whitespace = the 29 code points of
+    PyRt.pyWhitespaceCodes, compared by the selftest with CPython's isspace/split()/strip() on ALL code points.
+  * `sorted` is a stable insertion sort (pySortedBy); `deque(xs)` used as a queue is a list; NamedTuple construction
+    `Cls(a, b)` = the anonymous constructor of the declared Lean structure (every field, in order), `v.method(args)`
+    on a Struct value = the translated `Cls.method` with `v` first.
+  * An empty display (`xs = []`, `s = set()`, `d = {}`) gets its element type from the first add/append/`in`/item
+    assignment/out-parameter use; if none fixes it the function is refused.
 
 SEMANTIC ASSUMPTIONS (what the generated Lean means)
   * int is the unbounded `Int`; str is the list of its code points (Unicode scalar values: a str with a lone
@@ -51,8 +111,8 @@ SEMANTIC ASSUMPTIONS (what the generated Lean means)
   * Local lists that are mutated (`append`, `extend`, item assignment) are rewritten functionally.  This is only sound
     without aliasing, which is checked syntactically: a mutated local may occur only as the receiver of the mutation,
     as an argument of a copying/consuming builtin (len, tuple, list, join, sum, iteration, indexing, slicing, `in`),
-    or in `return`; it may not be a parameter, be assigned to another name, be put into a container, be passed to
-    another function, or be mutated while being iterated.
+    or in `return`; it may not be assigned to another name, be put into a container, be passed to another function
+    (except as an out-parameter, see ROUND 2), or be mutated while being iterated.
   * `array('i', xs)` (signed integer typecodes) is the list `xs`: the C range of the elements is NOT modelled (the
     real code raises OverflowError beyond it).
   * dict preserves insertion order (PyRt.Dict is an association list); module-level constants and the identity of
@@ -91,6 +151,11 @@ def Dict(k, v):
     return ("dict", k, v)
 
 
+def Set(t):
+    """a Python set/frozenset of hashable values: a duplicate-free list in insertion order"""
+    return ("set", t)
+
+
 def Struct(lean_name, fields, pyclass=None):
     """fields: ordered {python attribute name: T}; the Lean structure has fields of the same names, in this order."""
     return ("struct", lean_name, tuple(fields.items()), pyclass)
@@ -110,6 +175,8 @@ def lean_type(t, paren=False):
         s = "Option " + lean_type(t[1], True)
     elif k == "list":
         s = "List " + lean_type(t[1], True)
+    elif k == "set":
+        s = "List " + lean_type(t[1], True)
     elif k == "tuple":
         s = " × ".join(lean_type(x, True) for x in t[1:])
     elif k == "dict":
@@ -123,6 +190,27 @@ def lean_type(t, paren=False):
 
 def _has_unk(t):
     return t == UNK or any(_has_unk(x) for x in t[1:] if isinstance(x, tuple) and x and isinstance(x[0], str))
+
+
+def _contains_kind(t, kinds):
+    """does the type mention one of these kinds anywhere (struct fields included)"""
+    if t[0] in kinds:
+        return True
+    if t[0] == "struct":
+        return any(_contains_kind(ft, kinds) for _, ft in t[2])
+    return any(_contains_kind(x, kinds) for x in t[1:] if isinstance(x, tuple) and x and isinstance(x[0], str))
+
+
+def _structs_of(t, out):
+    if t[0] == "struct":
+        out[t[1]] = t
+        for _, ft in t[2]:
+            _structs_of(ft, out)
+    else:
+        for x in t[1:]:
+            if isinstance(x, tuple) and x and isinstance(x[0], str):
+                _structs_of(x, out)
+    return out
 
 
 def lean_char(c):
@@ -163,14 +251,30 @@ class Spec:
         self.fn, self.name, self.params, self.ret, self.fixed = fn, name, list(params), ret, dict(fixed or {})
         self.small_ints = small_ints     # hint for the selftest only: ints stay in the C range (array('i', …))
         self.monadic = None       # set by the translation
+        self.fuel = False         # set by the translation: the Lean function takes `fuel : Nat` first
+        self.outparams = []       # set by the translation: mutated parameters (returned after the result)
+
+    def lean_ret(self):
+        """the type of the Lean result: the Python result followed by the new values of the mutated parameters"""
+        outs = [dict(self.params)[p] for p in self.outparams]
+        if not outs:
+            return self.ret
+        if self.ret == NONE:
+            return outs[0] if len(outs) == 1 else Tup(*outs)
+        return Tup(self.ret, *outs)
 
 
 _BUILTIN_ERRS = ("ValueError", "IndexError", "KeyError", "TypeError", "ZeroDivisionError", "AssertionError",
-                 "NotImplementedError")
+                 "NotImplementedError", "StopIteration")
 _LEAN_KEYWORDS = {"at", "from", "end", "then", "else", "do", "fun", "let", "in", "have", "show", "with", "match", "if",
                   "for", "return", "where", "by", "open", "def", "theorem", "instance", "structure", "namespace",
                   "section", "variable", "mut", "type", "Type", "Prop", "Sort", "import", "some", "none", "true", "false",
-                  "pure", "throw", "id", "max", "min"}
+                  "pure", "throw", "id", "max", "min", "fuel"}
+
+
+# methods that change their receiver in place (the receiver must be a local / parameter NAME)
+_MUTATORS = ("append", "extend", "add", "update", "setdefault", "popleft", "pop", "appendleft", "insert", "remove",
+             "discard", "clear", "sort", "reverse")
 
 
 def _ind(lines, n=1):
@@ -179,9 +283,12 @@ def _ind(lines, n=1):
 
 # -------------------------------------------------------------------------------------------------- one function
 class _Fn:
-    def __init__(self, spec, module_specs):
+    def __init__(self, spec, module_specs, structs=None):
         self.spec = spec
         self.module_specs = module_specs          # id(function object) -> Spec (already translated)
+        self.structs = structs or {}              # python class -> Struct type (NamedTuple/dataclass of the Specs)
+        self.loopkinds = []                       # innermost last: ("for", None) / ("while", flag name)
+        self.pending = []                         # declarations of empty containers whose type is inferred later
         self.globals = getattr(spec.fn, "__globals__", {})
         src = textwrap.dedent(inspect.getsource(spec.fn))
         tree = ast.parse(src)
@@ -249,6 +356,14 @@ class _Fn:
                 raise Unsupported("%s: no parameter `%s` in the source" % (self.spec.name, p))
         self.nassign = {}
         self.mutated = set()
+        self.rebound = set()
+        self.recursive = False
+        uses_while = False
+        calls = []
+
+        def mutate(name):
+            self.mutated.add(name)
+            self.nassign[name] = self.nassign.get(name, 0) + 1
         for n in ast.walk(self.node):
             if isinstance(n, (ast.Assign, ast.AnnAssign, ast.AugAssign)):
                 tg = n.targets if isinstance(n, ast.Assign) else [n.target]
@@ -256,18 +371,54 @@ class _Fn:
                     for x in ([t] if not isinstance(t, ast.Tuple) else t.elts):
                         if isinstance(x, ast.Name):
                             self.nassign[x.id] = self.nassign.get(x.id, 0) + 1
+                            self.rebound.add(x.id)
                         elif isinstance(x, ast.Subscript) and isinstance(x.value, ast.Name):
-                            self.mutated.add(x.value.id)
-                            self.nassign[x.value.id] = self.nassign.get(x.value.id, 0) + 1
-            elif (isinstance(n, ast.Expr) and isinstance(n.value, ast.Call) and isinstance(n.value.func, ast.Attribute)
-                  and n.value.func.attr in ("append", "extend") and isinstance(n.value.func.value, ast.Name)):
-                self.mutated.add(n.value.func.value.id)
-                self.nassign[n.value.func.value.id] = self.nassign.get(n.value.func.value.id, 0) + 1
+                            mutate(x.value.id)
+            elif (isinstance(n, ast.Call) and isinstance(n.func, ast.Attribute) and n.func.attr in _MUTATORS
+                  and isinstance(n.func.value, ast.Name)
+                  and dict(self.spec.params).get(n.func.value.id, UNK)[0] not in ("struct", "str")):
+                mutate(n.func.value.id)
+            elif isinstance(n, ast.While):
+                uses_while = True
             elif isinstance(n, (ast.Lambda, ast.FunctionDef, ast.ClassDef, ast.AsyncFunctionDef)) and n is not self.node:
                 self.fail(n, "nested function/class")
+            if isinstance(n, ast.Call) and isinstance(n.func, ast.Name) and n.func.id not in dict(self.spec.params):
+                try:
+                    obj = self.resolve_global(n.func.id)
+                except KeyError:
+                    continue
+                if obj is self.spec.fn:
+                    self.recursive = True
+                    calls.append((n, None))
+                elif id(obj) in self.module_specs and self.module_specs[id(obj)].fn is obj:
+                    calls.append((n, self.module_specs[id(obj)]))
+        # arguments at the positions of a callee's mutated parameters are mutated here too (to a fixed point for
+        # the function's own recursive calls)
+        changed = True
+        while changed:
+            changed = False
+            for call, callee in calls:
+                outs = [p for p in pynames if p in self.mutated] if callee is None else callee.outparams
+                if not outs:
+                    continue
+                cnames = pynames if callee is None else list(inspect.signature(callee.fn).parameters)
+                given = dict(zip(cnames, call.args))
+                given.update({k.arg: k.value for k in call.keywords if k.arg})
+                for o in outs:
+                    a = given.get(o)
+                    if not isinstance(a, ast.Name):
+                        self.fail(call, "the argument for the mutated parameter `%s` is not a plain local name" % o)
+                    if a.id not in self.mutated:
+                        mutate(a.id)
+                        changed = True
+        self.spec.fuel = uses_while or self.recursive or any(c is not None and c.fuel for _, c in calls)
+        self.spec.outparams = [p for p in pynames if p in self.mutated]
+        for p in self.spec.outparams:
+            if p in self.spec.fixed or dict(self.spec.params)[p][0] not in ("list", "set", "dict"):
+                raise Unsupported("%s: mutated parameter `%s` is not a list/set/dict" % (self.spec.name, p))
+            if p in self.rebound:
+                raise Unsupported("%s: parameter `%s` is both mutated in place and re-bound" % (self.spec.name, p))
         for p in pynames:
-            if p in self.mutated:
-                raise Unsupported("%s: parameter `%s` is mutated in place (visible to the caller)" % (self.spec.name, p))
             if p in self.spec.fixed and self.nassign.get(p):
                 raise Unsupported("%s: fixed parameter `%s` is assigned" % (self.spec.name, p))
 
@@ -283,8 +434,10 @@ class _Fn:
             return Opt(self.join(node, t1[1], t2))
         if t2[0] == "opt" and t1[0] != "opt":
             return Opt(self.join(node, t1, t2[1]))
-        if t1[0] == t2[0] and t1[0] in ("opt", "list"):
+        if t1[0] == t2[0] and t1[0] in ("opt", "list", "set"):
             return (t1[0], self.join(node, t1[1], t2[1]))
+        if t1[0] == "dict" and t2[0] == "dict":
+            return Dict(self.join(node, t1[1], t2[1]), self.join(node, t1[2], t2[2]))
         if t1 == UNK:
             return t2
         if t2 == UNK:
@@ -299,14 +452,15 @@ class _Fn:
                 return "none"
             if t[0] != "opt":
                 return "(some %s)" % self.coerce(node, term, t, to[1])
-        if t[0] == "list" and to[0] == "list" and t[1] == UNK and term == "[]":
-            return "([] : %s)" % lean_type(to)
+        if t[0] in ("list", "set", "dict") and to[0] in ("list", "set", "dict") and _has_unk(t) and term == "[]" \
+                and (t[0] == to[0] or (t[0] == "list" and to[0] == "set")):
+            return "([] : %s)" % lean_type(to)     # (an empty list where a set is expected: only ever read)
         self.fail(node, "a value of type %s where %s is needed" % (t, to))
 
     def truthy(self, node, term, t):
         if t == BOOL:
             return term
-        if t == STR or t[0] == "list":
+        if t == STR or t[0] in ("list", "set", "dict"):
             return "(!(List.isEmpty %s))" % term
         if t == INT:
             return "(%s != 0)" % term
@@ -335,7 +489,9 @@ class _Fn:
                 return Tup(*[self.annotation(x) for x in args])
             if node.value.id in ("Dict", "dict") and len(args) == 2:
                 return Dict(self.annotation(args[0]), self.annotation(args[1]))
-        self.fail(node, "type annotation outside str/int/bool/List/Optional/Tuple/Dict")
+            if node.value.id in ("Set", "set", "FrozenSet", "frozenset") and len(args) == 1:
+                return Set(self.annotation(args[0]))
+        self.fail(node, "type annotation outside str/int/bool/List/Optional/Tuple/Dict/Set")
 
     # ---- static evaluation of tests on `fixed` parameters
     def static_test(self, node):
@@ -350,6 +506,13 @@ class _Fn:
                 and isinstance(node.comparators[0], ast.Constant) and node.comparators[0].value is None):
             r = self.spec.fixed[node.left.id] is None
             return r if isinstance(node.ops[0], ast.Is) else not r
+        if (isinstance(node, ast.Compare) and len(node.ops) == 1 and isinstance(node.ops[0], (ast.Is, ast.IsNot))
+                and isinstance(node.left, ast.Name) and isinstance(node.comparators[0], ast.Constant)
+                and node.comparators[0].value is None):
+            # a name whose declared type is not Optional is never None (the Spec's types describe the call shape)
+            t = self.lookup(node.left.id)
+            if t is not None and t[0] in ("str", "int", "bool", "list", "set", "dict", "tuple", "struct"):
+                return isinstance(node.ops[0], ast.IsNot)
         return None
 
     def none_test(self, node):
@@ -374,6 +537,8 @@ class _Fn:
         if m is None:
             self.fail(node, "expression form %s" % type(node).__name__)
         if isinstance(node, ast.Name):
+            if in_return and node.id in self.spec.outparams:
+                self.fail(node, "a mutated parameter is returned (the result would alias the caller's object)")
             return m(node, alias_ok)
         if isinstance(node, ast.Tuple):
             return m(node, in_return)      # `return (a, xs)`: the function ends, a mutated local may be an element
@@ -396,7 +561,7 @@ class _Fn:
         name = node.id
         t = self.lookup(name)
         if t is not None:
-            if name in self.mutated and not alias_ok:
+            if name in self.mutated and not alias_ok and t[0] in ("list", "set", "dict"):
                 self.fail(node, "possible aliasing of the mutated local list `%s`" % name)
             return [], self.ident(name), t
         if name in self.dead or name in self.nassign or name in self.loopvars:
@@ -424,10 +589,18 @@ class _Fn:
         for e in node.elts:
             if isinstance(e, ast.Starred):
                 self.fail(node, "starred element")
-            p, x, t = self.expr(e, alias_ok=alias_ok)
+            p, x, t = self.expr(e, alias_ok=alias_ok, in_return=alias_ok)
             pre += p
             terms.append(x)
             ts.append(t)
+        if kind == "set":
+            if not terms:
+                self.fail(node, "empty set display")
+            t = ts[0]
+            for x in ts[1:]:
+                t = self.join(node, t, x)
+            self.hashable(node, t)
+            return pre, "(pySetOfList [%s])" % ", ".join(self.coerce(node, x, tx, t) for x, tx in zip(terms, ts)), Set(t)
         if kind == "tuple":
             if len(terms) < 2:
                 self.fail(node, "tuple display with fewer than two elements")
@@ -438,6 +611,56 @@ class _Fn:
         for x in ts[1:]:
             t = self.join(node, t, x)
         return pre, "[" + ", ".join(self.coerce(node, x, tx, t) for x, tx in zip(terms, ts)) + "]", Lst(t)
+
+    def e_Set(self, node):
+        return self.display(node, "set")
+
+    def hashable(self, node, t):
+        """set elements / dict keys: str, int, bool, None, tuples and Optionals of those (equality is structural)"""
+        if _contains_kind(t, ("list", "set", "dict", "struct", "unk")):
+            self.fail(node, "an unhashable (or unknown) element/key type %s" % (t,))
+
+    def e_Dict(self, node):
+        if not node.keys:
+            return [], "[]", Dict(UNK, UNK)
+        pre, pairs, tk, tv = [], [], None, None
+        for k, v in zip(node.keys, node.values):
+            if k is None:
+                self.fail(node, "`**` in a dict display")
+            p1, a, ta = self.expr(k)
+            p2, b, tb = self.expr(v)
+            pre += p1 + p2
+            tk = ta if tk is None else self.join(node, tk, ta)
+            tv = tb if tv is None else self.join(node, tv, tb)
+            pairs.append((a, ta, b, tb))
+        self.hashable(node, tk)
+        if _has_unk(tv):
+            self.fail(node, "dict display with values of unknown type")
+        return pre, "(pyDictOfList [%s])" % ", ".join(
+            "(%s, %s)" % (self.coerce(node, a, ta, tk), self.coerce(node, b, tb, tv)) for a, ta, b, tb in pairs), Dict(tk, tv)
+
+    def e_JoinedStr(self, node):
+        """f'…{e}…' with plain `{e}` fields (no conversion, no format spec) of str / int operands"""
+        pre, parts = [], []
+        for v in node.values:
+            if isinstance(v, ast.Constant) and isinstance(v.value, str):
+                if v.value:
+                    parts.append(lean_str(v.value))
+            elif isinstance(v, ast.FormattedValue) and v.conversion == -1 and v.format_spec is None:
+                p, x, t = self.expr(v.value)
+                pre += p
+                parts.append(self.str_of(v, x, t))
+            else:
+                self.fail(node, "f-string field with a conversion or a format spec")
+        return pre, ("(" + " ++ ".join(parts) + ")") if parts else lean_str(""), STR
+
+    def str_of(self, node, x, t):
+        """`str(x)` / `format(x, '')` for the operand types whose text is modelled"""
+        if t == STR:
+            return x
+        if t == INT:
+            return "(pyStrInt %s)" % x
+        self.fail(node, "formatting of a %s (only str and int operands are translated)" % (t,))
 
     def e_UnaryOp(self, node):
         if isinstance(node.op, ast.Not):
@@ -488,8 +711,8 @@ class _Fn:
         return pre, self.truthy(node, x, t)
 
     def e_BinOp(self, node):
-        pre, a, ta = self.expr(node.left)
-        p2, b, tb = self.expr(node.right)
+        pre, a, ta = self.expr(node.left, alias_ok=True)       # every binary operator here builds a NEW value
+        p2, b, tb = self.expr(node.right, alias_ok=True)
         pre += p2
         op = type(node.op).__name__
         if ta == INT and tb == INT:
@@ -506,6 +729,12 @@ class _Fn:
         if op == "Add" and ta[0] == "list" and tb[0] == "list":
             t = self.join(node, ta, tb)
             return pre, "(%s ++ %s)" % (self.coerce(node, a, ta, t), self.coerce(node, b, tb, t)), t
+        if ta[0] == "set" and tb[0] == "set" and op in ("BitOr", "BitAnd", "Sub"):
+            t = self.join(node, ta, tb)
+            if _has_unk(t):
+                self.fail(node, "set operation between two empty sets")
+            f = {"BitOr": "pySetUpdate", "BitAnd": "pySetInter", "Sub": "pySetDiff"}[op]
+            return pre, "(%s %s %s)" % (f, self.coerce(node, a, ta, t), self.coerce(node, b, tb, t)), t
         if op == "Mult" and (ta == STR or ta[0] == "list") and tb == INT:
             if _has_unk(ta):
                 self.fail(node, "repetition of an empty display")
@@ -526,23 +755,50 @@ class _Fn:
             if ta[0] != "opt":
                 self.fail(node, "`is None` on a value that is not Optional")
             return pre, "(Option.%s %s)" % ("isNone" if op == "Is" else "isSome", a), BOOL
-        pre, a, ta = self.expr(node.left, alias_ok=op in ("In", "NotIn"))
-        p2, b, tb = self.expr(right, alias_ok=op in ("In", "NotIn"))
+        pre, a, ta = self.expr(node.left, alias_ok=True)       # comparisons only read their operands
+        p2, b, tb = self.expr(right, alias_ok=True)
         pre += p2
+        if op in ("Eq", "NotEq") and ta[0] == "set" and tb[0] == "set":
+            t = self.join(node, ta, tb)
+            if _has_unk(t):
+                self.fail(node, "comparison of two empty displays")
+            c = "(pySetEq %s %s)" % (self.coerce(node, a, ta, t), self.coerce(node, b, tb, t))
+            return pre, (c if op == "Eq" else "(!%s)" % c), BOOL
+        if op in ("LtE", "GtE") and ta[0] == "set" and tb[0] == "set":
+            t = self.join(node, ta, tb)
+            a, b = self.coerce(node, a, ta, t), self.coerce(node, b, tb, t)
+            return pre, "(pySetSubset %s %s)" % ((a, b) if op == "LtE" else (b, a)), BOOL
         if op in ("Eq", "NotEq"):
             t = self.join(node, ta, tb)
             if _has_unk(t):
                 self.fail(node, "comparison of two empty displays")
+            if _contains_kind(t, ("set", "dict")):
+                self.fail(node, "`==` on values containing sets/dicts (their equality ignores the order)")
             return pre, "(%s %s %s)" % (self.coerce(node, a, ta, t), "==" if op == "Eq" else "!=",
                                         self.coerce(node, b, tb, t)), BOOL
         if op in ("Lt", "LtE", "Gt", "GtE"):
             if ta == INT and tb == INT:
                 return pre, "(decide (%s %s %s))" % (a, {"Lt": "<", "LtE": "≤", "Gt": ">", "GtE": "≥"}[op], b), BOOL
+            if ta == STR and tb == STR:
+                c = {"LtE": "(pyStrLe %s %s)" % (a, b), "GtE": "(pyStrLe %s %s)" % (b, a),
+                     "Lt": "(!(pyStrLe %s %s))" % (b, a), "Gt": "(!(pyStrLe %s %s))" % (a, b)}[op]
+                return pre, c, BOOL
             self.fail(node, "order comparison on %s" % (ta,))
         if op in ("In", "NotIn"):
             if tb == STR and ta == STR:
                 c = "(pyStrContains %s %s)" % (a, b)
-            elif tb[0] == "list" and not _has_unk(tb):
+            elif tb[0] in ("list", "set") and _has_unk(tb) and isinstance(right, ast.Name) and not _has_unk(ta):
+                self.retype(right.id, (tb[0], ta))         # `x in seen` on a still untyped `seen = set()`
+                c = "(List.contains %s %s)" % (b, a)
+            elif tb[0] == "dict" and _has_unk(tb):
+                self.fail(node, "`in` on a dict whose types are not known yet")
+            elif tb[0] in ("list", "set") and _has_unk(tb):
+                if isinstance(right, ast.Name):
+                    self.fail(node, "`in` on a container whose element type is not known yet")
+                c = "false"           # membership in an empty display
+            elif tb[0] in ("list", "set"):
+                if _contains_kind(tb[1], ("set", "dict")):
+                    self.fail(node, "`in` on a sequence of sets/dicts")
                 c = "(List.contains %s %s)" % (b, self.coerce(node, a, ta, tb[1]))
             elif tb[0] == "dict":
                 c = "(pyDictContains %s %s)" % (b, self.coerce(node, a, ta, tb[1]))
@@ -630,12 +886,61 @@ class _Fn:
                     return pre, "(%s.%s)" % (x, self.ident(f)), t
         self.fail(node, "attribute of %s" % (tx,))
 
-    def comprehension(self, node):
+    def comprehension2(self, node, unordered_ok):
+        """[elt for a in xs (if c1) for b in ys (if c2)] with pure parts: List.flatMap over the outer clause"""
+        g1, g2 = node.generators
+        if g1.is_async or g2.is_async:
+            self.fail(node, "async comprehension")
+        pre, xs, t1 = self.iterable(g1.iter, unordered_ok)
+        self.push()
+        pat1 = self.bind_target(g1.target, t1, loopvar=False)
+        c1 = [self.pure_test(c) for c in g1.ifs]
+        p2, ys, t2 = self.iterable(g2.iter, unordered_ok)
+        if p2:
+            self.fail(node, "an inner comprehension clause that can raise")
+        self.push()
+        pat2 = self.bind_target(g2.target, t2, loopvar=False)
+        c2 = [self.pure_test(c) for c in g2.ifs]
+        pe, e, te = self.expr(node.elt)
+        self.pop()
+        self.pop()
+        if pe or _has_unk(te):
+            self.fail(node, "element of a two-clause comprehension that can raise / of unknown type")
+        if c2:
+            ys = "(List.filter (fun %s => %s) %s)" % (pat2, " && ".join(c2), ys)
+        if c1:
+            xs = "(List.filter (fun %s => %s) %s)" % (pat1, " && ".join(c1), xs)
+        return pre, "(List.flatMap (fun %s => List.map (fun %s => %s) %s) %s)" % (pat1, pat2, e, ys, xs), Lst(te)
+
+    def pure_test(self, c):
+        p, ct = self.test(c)
+        if p:
+            self.fail(c, "a comprehension filter that can raise")
+        return ct
+
+    def e_SetComp(self, node):
+        pre, x, t = self.comprehension(node, unordered_ok=True)
+        self.hashable(node, t[1])
+        return pre, "(pySetOfList %s)" % x, Set(t[1])
+
+    def e_DictComp(self, node):
+        pair = ast.Tuple(elts=[node.key, node.value], ctx=ast.Load())
+        lc = ast.ListComp(elt=pair, generators=node.generators)
+        ast.copy_location(lc, node)
+        ast.copy_location(pair, node)
+        ast.fix_missing_locations(lc)
+        pre, x, t = self.comprehension(lc)
+        self.hashable(node, t[1][1])
+        return pre, "(pyDictOfList %s)" % x, Dict(t[1][1], t[1][2])
+
+    def comprehension(self, node, unordered_ok=False):
         """[elt for target in iter if conds] -> (pre, term, Lst(T))"""
+        if len(node.generators) == 2:
+            return self.comprehension2(node, unordered_ok)
         if len(node.generators) != 1 or node.generators[0].is_async:
-            self.fail(node, "comprehension with several `for` clauses")
+            self.fail(node, "comprehension with more than two `for` clauses")
         g = node.generators[0]
-        pre, xs, telt = self.iterable(g.iter)
+        pre, xs, telt = self.iterable(g.iter, unordered_ok)
         self.push()
         pat = self.bind_target(g.target, telt, loopvar=False)
         conds = []
@@ -652,25 +957,44 @@ class _Fn:
             xs = "(List.filter (fun %s => %s) %s)" % (pat, " && ".join(conds), xs)
         if not pe:
             return pre, "(List.map (fun %s => %s) %s)" % (pat, e, xs), Lst(te)
+        if unordered_ok:
+            self.fail(node, "a raising element in a comprehension whose source may be a set (which error comes first?)")
         r = self.bind(pre, "List.mapM (m := Except PyErr) (fun %s => do" % pat, Lst(te))
         pre += _ind(pe + ["pure %s) %s" % (e, xs)], 2)
         return pre, r, Lst(te)
 
     e_ListComp = comprehension
 
-    def iterable(self, node):
-        """(pre, list term, element type) of something that is iterated"""
+    def iterable(self, node, unordered_ok=False):
+        """(pre, list term, element type) of something that is iterated.  A SET may only be iterated where the result
+        cannot depend on the order (`unordered_ok`: the consumer builds a set, tests any/all, sums, sorts, …)."""
         if isinstance(node, ast.Name) and node.id in self.iterating and node.id in self.mutated:
             self.fail(node, "iteration over a list that the loop mutates")
         if isinstance(node, ast.GeneratorExp):
-            pre, x, t = self.comprehension(node)
+            pre, x, t = self.comprehension(node, unordered_ok)
+        elif (isinstance(node, ast.Call) and isinstance(node.func, ast.Attribute)
+              and node.func.attr in ("items", "keys", "values") and not node.args and not node.keywords):
+            pre, x, t = self.expr(node.func.value, alias_ok=True)
+            if t[0] != "dict" or _has_unk(t):
+                self.fail(node, "items()/keys()/values() of %s" % (t,))
+            if node.func.attr == "items":
+                return pre, x, Tup(t[1], t[2])
+            if node.func.attr == "keys":
+                return pre, "(List.map Prod.fst %s)" % x, t[1]
+            return pre, "(List.map Prod.snd %s)" % x, t[2]
         else:
             pre, x, t = self.expr(node, alias_ok=True)
         if t == STR:
             return pre, "(pyIterStr %s)" % x, STR
         if t[0] == "list" and not _has_unk(t):
             return pre, x, t[1]
-        if t[0] == "dict":
+        if t[0] == "set" and not _has_unk(t):
+            if not unordered_ok:
+                self.fail(node, "iteration over a set where the result may depend on the (arbitrary) order")
+            return pre, x, t[1]
+        if t[0] in ("list", "set") and unordered_ok:
+            return pre, "[]", UNK
+        if t[0] == "dict" and not _has_unk(t):
             return pre, "(List.map Prod.fst %s)" % x, t[1]
         self.fail(node, "iteration over %s" % (t,))
 
@@ -699,10 +1023,19 @@ class _Fn:
             obj = self.resolve_global(f.id)
         except KeyError:
             self.fail(node, "unknown function")
+        if obj is self.spec.fn:
+            return self.spec_call(node, self.spec, recursive=True)
         if id(obj) in self.module_specs and self.module_specs[id(obj)].fn is obj:
             return self.spec_call(node, self.module_specs[id(obj)])
+        if isinstance(obj, type) and obj in self.structs:
+            return self.struct_new(node, obj)
         if getattr(builtins, f.id, None) is obj:
             return self.builtin_call(node, f.id)
+        import collections as _collections
+        if obj is _collections.deque:
+            # deque(xs) used as a queue: a list (append / extend / popleft / truth / len are translated)
+            pre, x, t = self.iterable(self.args(node, 1)[0])
+            return pre, x, Lst(t)
         import array as _array
         if obj is _array.array:
             # array('i', xs): modelled as the list xs (ASSUMPTION: every element fits the C type; OverflowError is
@@ -716,18 +1049,55 @@ class _Fn:
             return pre, x, Lst(INT)
         self.fail(node, "call of a function that is neither a supported builtin nor translated earlier in this module")
 
-    def spec_call(self, node, callee):
+    def struct_new(self, node, cls):
+        """`Cls(a, b, …)` for a NamedTuple/dataclass declared as Struct in the Specs: the anonymous constructor"""
+        st = self.structs[cls]
+        fields = [f for f, _ in st[2]]
+        given = dict(zip(fields, node.args))
+        if len(node.args) > len(fields):
+            self.fail(node, "too many constructor arguments")
+        for k in node.keywords:
+            if k.arg in given or k.arg not in fields:
+                self.fail(node, "constructor keyword")
+            given[k.arg] = k.value
+        if list(given) != fields or any(k.arg != f for k, f in zip(node.keywords, fields[len(node.args):])):
+            self.fail(node, "constructor call that does not give every field once, in declaration order")
+        pre, terms = [], []
+        for f, tf in st[2]:
+            p, x, t = self.expr(given[f])
+            pre += p
+            terms.append(self.coerce(node, x, t, tf))
+        return pre, "(⟨%s⟩ : %s)" % (", ".join(terms), st[1]), st
+
+    def spec_call(self, node, callee, recursive=False, receiver=None, in_stmt=False):
+        if callee.outparams and not in_stmt:
+            self.fail(node, "a call of a function that mutates its arguments, inside a larger expression")
         a = inspect.signature(callee.fn).parameters
         names = list(a)
         given = {}
         if len(node.args) > len(names):
             self.fail(node, "too many arguments")
+        if receiver is not None:
+            names = names[1:]      # `self` is the receiver
         for n, e in zip(names, node.args):
             given[n] = e
         for k in node.keywords:
             if k.arg in given or k.arg not in names:
                 self.fail(node, "keyword argument")
             given[k.arg] = k.value
+        outs = list(callee.outparams)
+        onames = []
+        for o in outs:
+            e = given.get(o)
+            if not (isinstance(e, ast.Name) and e.id in self.mutated and self.lookup(e.id) is not None
+                    and e.id not in self.iterating):
+                self.fail(node, "the argument for the mutated parameter `%s` must be a local list/set/dict name" % o)
+            onames.append(e.id)
+        if len(set(onames)) != len(onames):
+            self.fail(node, "the same object is passed for two mutated parameters")
+        for o, nm in zip(outs, onames):
+            if _has_unk(self.lookup(nm)) and self.lookup(nm)[0] == dict(callee.params)[o][0]:
+                self.retype(nm, dict(callee.params)[o])       # a still untyped empty container gets the callee's type
         pre, terms = [], []
         for n in names:            # Python evaluates the arguments in the order they are written
             if n in callee.fixed:
@@ -739,10 +1109,19 @@ class _Fn:
                     self.fail(node, "default of `%s` differs from the value fixed for the translated callee" % n)
         order = [n for n, _ in sorted(((n, (e.lineno, e.col_offset)) for n, e in given.items()), key=lambda z: z[1])]
         vals = {}
+        if receiver is not None:
+            p, x, t = receiver
+            pre += p
+            vals[list(a)[0]] = self.coerce(node, x, t, dict(callee.params)[list(a)[0]])
         for n in order:
             if n in callee.fixed:
                 continue
-            p, x, t = self.expr(given[n])
+            # a callee cannot keep an argument; it can only hand it back in its result
+            no_alias = not _contains_kind(callee.ret, ("list", "set", "dict", "struct")) or getattr(callee, "ret_fresh", False)
+            p, x, t = self.expr(given[n], alias_ok=n in outs or no_alias)
+            if n not in outs and _contains_kind(t, ("list", "set", "dict", "struct")) \
+                    and any(isinstance(y, ast.Name) and y.id in onames for y in ast.walk(given[n])):
+                self.fail(node, "an object passed for a mutated parameter also occurs in another (container) argument")
             pre += p
             vals[n] = self.coerce(given[n], x, t, dict(callee.params)[n])
         for n, t in callee.params:
@@ -753,10 +1132,25 @@ class _Fn:
                 x, tx = lean_const(d)
                 vals[n] = self.coerce(node, x, tx, t)
             terms.append(vals[n])
-        call = " ".join([callee.name] + terms)
-        if callee.monadic:
-            return pre, self.bind(pre, call, callee.ret), callee.ret
-        return pre, "(" + call + ")", callee.ret
+        call = " ".join([callee.name] + (["fuel"] if callee.fuel else []) + terms)
+        rt = callee.lean_ret()
+        if callee.monadic or recursive:
+            r = self.bind(pre, call, rt)
+        elif outs:
+            r = self.fresh()
+            pre.append("let %s := %s" % (r, call))
+        else:
+            return pre, "(" + call + ")", callee.ret
+        if not outs:
+            return pre, r, callee.ret
+        # the new values of the mutated arguments come back after the result
+        n = len(outs) + (0 if callee.ret == NONE else 1)
+        comps = ["%s%s%s" % (r, ".2" * k, ".1" if k < n - 1 else "") for k in range(n)] if n > 1 else [r]
+        for o, c in zip(onames, comps[(0 if callee.ret == NONE else 1):]):
+            pre.append("%s := %s" % (self.ident(o), c))
+        if callee.ret == NONE:
+            return pre, "()", NONE
+        return pre, comps[0], callee.ret
 
     def args(self, node, lo, hi=None):
         if node.keywords or not lo <= len(node.args) <= (hi or lo):
@@ -766,7 +1160,7 @@ class _Fn:
     def builtin_call(self, node, name):
         if name == "len":
             pre, x, t = self.expr(self.args(node, 1)[0], alias_ok=True)
-            if t == STR or t[0] in ("list", "dict"):
+            if t == STR or t[0] in ("list", "dict", "set"):
                 return pre, "(pyLen %s)" % x, INT
         elif name == "str":
             pre, x, t = self.expr(self.args(node, 1)[0])
@@ -813,15 +1207,96 @@ class _Fn:
                 terms.append("(1 : Int)")
             return pre, "(pyRange %s)" % " ".join(terms), Lst(INT)
         elif name == "enumerate":
+            start = None
+            if len(node.keywords) == 1 and node.keywords[0].arg == "start" and len(node.args) == 1:
+                start = node.keywords[0].value
+            elif not node.keywords and len(node.args) == 2:
+                start = node.args[1]
+            else:
+                self.args(node, 1)
+            pre, x, t = self.iterable(node.args[0])
+            if start is None:
+                return pre, "(pyEnumerate %s)" % x, Lst(Tup(INT, t))
+            p2, st, ts = self.expr(start)
+            if ts != INT:
+                self.fail(node, "enumerate() start of type %s" % (ts,))
+            return pre + p2, "(pyEnumerateFrom %s %s)" % (x, st), Lst(Tup(INT, t))
+        elif name in ("set", "frozenset"):
+            if not node.args and not node.keywords:
+                return [], "[]", Set(UNK)
+            pre, x, t = self.iterable(self.args(node, 1)[0], unordered_ok=True)
+            if t == UNK:
+                return pre, "[]", Set(UNK)
+            self.hashable(node, t)
+            return pre, "(pySetOfList %s)" % x, Set(t)
+        elif name == "dict":
+            if not node.args and not node.keywords:
+                return [], "[]", Dict(UNK, UNK)
             pre, x, t = self.iterable(self.args(node, 1)[0])
-            return pre, "(pyEnumerate %s)" % x, Lst(Tup(INT, t))
+            if isinstance(self.args(node, 1)[0], ast.Name) and self.lookup(node.args[0].id)[0] == "dict":
+                d = self.lookup(node.args[0].id)
+                return pre, self.ident(node.args[0].id), d        # dict(d): a copy
+            if t[0] != "tuple" or len(t) != 3:
+                self.fail(node, "dict() of something that is not a sequence of pairs")
+            self.hashable(node, t[1])
+            return pre, "(pyDictOfList %s)" % x, Dict(t[1], t[2])
+        elif name == "sorted":
+            key = None
+            if len(node.keywords) == 1 and node.keywords[0].arg == "key" and len(node.args) == 1:
+                key = node.keywords[0].value
+            else:
+                self.args(node, 1)
+            # without a key the result is determined by the ELEMENTS (a total order on int/str): a set may be sorted;
+            # with a key, elements with equal keys keep their input order: not on a set
+            pre, x, t = self.iterable(node.args[0], unordered_ok=key is None)
+            if key is None:
+                if t not in (INT, STR):
+                    self.fail(node, "sorted() of elements of type %s (only int / str)" % (t,))
+                return pre, "(pySorted %s)" % x, Lst(t)
+            v = self.fresh()
+            self.push()
+            self.scopes[-1][v] = t
+            call = ast.Call(func=key, args=[ast.Name(id=v, ctx=ast.Load())], keywords=[])
+            ast.copy_location(call, node)
+            ast.fix_missing_locations(call)
+            pe, e, te = self.expr(call)
+            self.scopes.pop()
+            if pe or te not in (INT, STR):
+                self.fail(node, "sorted() with a key that can raise or is not int / str")
+            return pre, "(pySortedBy (fun %s => %s) %s)" % (v, e, x), Lst(t)
+        elif name in ("any", "all"):
+            arg = self.args(node, 1)[0]
+            f = "List.any" if name == "any" else "List.all"
+            if isinstance(arg, ast.GeneratorExp) and len(arg.generators) == 1 and not arg.generators[0].is_async:
+                g = arg.generators[0]
+                pre, xs, telt = self.iterable(g.iter, unordered_ok=True)
+                self.push()
+                pat = self.bind_target(g.target, telt, loopvar=False)
+                conds = [self.pure_test(c) for c in g.ifs]
+                pe, c = self.test(arg.elt)
+                self.pop()
+                if pe:
+                    self.fail(node, "any()/all() over elements that can raise (evaluation stops early)")
+                if conds:
+                    xs = "(List.filter (fun %s => %s) %s)" % (pat, " && ".join(conds), xs)
+                return pre, "(%s %s (fun %s => %s))" % (f, xs, pat, c), BOOL
+            pre, x, t = self.iterable(arg, unordered_ok=True)
+            v = self.fresh()
+            return pre, "(%s %s (fun %s => %s))" % (f, x, v, self.truthy(node, v, t)), BOOL
+        elif name == "next":
+            # next(iter(xs)) on an ordered collection: its first element, StopIteration when empty
+            arg = self.args(node, 1)[0]
+            if (isinstance(arg, ast.Call) and isinstance(arg.func, ast.Name) and arg.func.id == "iter"
+                    and self.lookup("iter") is None and not arg.keywords and len(arg.args) == 1):
+                pre, x, t = self.iterable(arg.args[0])
+                return pre, self.bind(pre, "pyNext %s" % x, t), t
         elif name == "zip":
             a, b = self.args(node, 2)
             pre, x, tx = self.iterable(a)
             p2, y, ty = self.iterable(b)
             return pre + p2, "(List.zip %s %s)" % (x, y), Lst(Tup(tx, ty))
         elif name == "sum":
-            pre, x, t = self.iterable(self.args(node, 1)[0])
+            pre, x, t = self.iterable(self.args(node, 1)[0], unordered_ok=True)
             if t == INT:
                 return pre, "(pySum %s)" % x, INT
         elif name in ("min", "max"):
@@ -858,7 +1333,35 @@ class _Fn:
     def method_call(self, node):
         f = node.func
         m = f.attr
+        if m == "format" and isinstance(f.value, ast.Constant) and isinstance(f.value.value, str):
+            return self.format_call(node, f.value.value)
         pre, r, tr = self.expr(f.value, alias_ok=True)
+        if tr[0] == "struct" and tr[3] is not None:
+            fn = getattr(tr[3], m, None)
+            fn = getattr(fn, "__func__", fn)
+            if fn is self.spec.fn:
+                return self.spec_call(node, self.spec, recursive=True, receiver=(pre, r, tr))
+            if id(fn) in self.module_specs and self.module_specs[id(fn)].fn is fn:
+                return self.spec_call(node, self.module_specs[id(fn)], receiver=(pre, r, tr))
+            self.fail(node, "method of a structure that is not translated earlier in this module")
+        if tr == STR and not node.args and not node.keywords and m in ("split", "strip", "lstrip", "rstrip"):
+            if m == "split":
+                return pre, "(pySplitWs %s)" % r, Lst(STR)
+            return pre, "(py%sWs %s)" % (m.capitalize(), r), STR
+        if tr[0] == "set" and m in ("union", "intersection", "difference", "issubset", "issuperset", "isdisjoint"):
+            a, = self.args(node, 1)
+            p1, x, tx = self.iterable(a, unordered_ok=True)
+            te = self.join(node, tr[1], tx)
+            if _has_unk(te):
+                self.fail(node, "set method between two empty collections")
+            r = self.coerce(node, r, tr, Set(te))
+            fn = {"union": "pySetUpdate", "intersection": "pySetInter", "difference": "pySetDiff",
+                  "issubset": "pySetSubset", "isdisjoint": "pySetDisjoint"}.get(m)
+            if m == "issuperset":
+                return pre + p1, "(List.all %s (fun x_ => List.contains %s x_))" % (x, r), BOOL
+            return pre + p1, "(%s %s %s)" % (fn, r, x), (BOOL if m.startswith("is") else Set(te))
+        if tr[0] in ("set", "list", "dict") and m == "copy" and not node.args and not node.keywords:
+            return pre, r, tr
         if tr == STR:
             if m == "replace":
                 a, b = self.args(node, 2)
@@ -898,15 +1401,69 @@ class _Fn:
                 return pre + p1 + p2, "(pyDictGetD %s %s %s)" % (r, k, self.coerce(node, d, td, tr[2])), tr[2]
         self.fail(node, "method `%s` on %s" % (m, tr))
 
+    def format_call(self, node, fmt):
+        """'…{}…{name}…'.format(a, b, name=c): only auto-numbered `{}` and `{name}` fields, no conversions/specs"""
+        import string
+        if node.keywords and any(k.arg is None for k in node.keywords):
+            self.fail(node, "format(**kw)")
+        vals, pre = {}, []
+        for i, e in enumerate(node.args):          # arguments are evaluated first, left to right
+            p, x, t = self.expr(e)
+            pre += p
+            vals[i] = (e, x, t)
+        for k in node.keywords:
+            p, x, t = self.expr(k.value)
+            pre += p
+            vals[k.arg] = (k.value, x, t)
+        parts, auto = [], 0
+        try:
+            fields = list(string.Formatter().parse(fmt))
+        except ValueError:
+            self.fail(node, "malformed format string")
+        for lit, name, spec, conv in fields:
+            if lit:
+                parts.append(lean_str(lit))
+            if name is None:
+                continue
+            if spec or conv is not None:
+                self.fail(node, "format field with a conversion or a format spec")
+            if name == "":
+                key, auto = auto, auto + 1
+            elif name.isidentifier():
+                key = name
+            else:
+                self.fail(node, "format field `{%s}` (only `{}` and `{name}` are translated)" % name)
+            if key not in vals:
+                self.fail(node, "format field without an argument (IndexError/KeyError at run time)")
+            e, x, t = vals[key]
+            parts.append(self.str_of(e, x, t))
+        return pre, ("(" + " ++ ".join(parts) + ")") if parts else lean_str(""), STR
+
     # ----------------------------------------------------------------------------------------------- statements
     def block(self, stmts, scope=True):
         if scope:
             self.push()
         out = []
-        for s in stmts:
+        for k, s in enumerate(stmts):
             m = getattr(self, "s_" + type(s).__name__, None)
             if m is None:
                 self.fail(s, "statement form %s" % type(s).__name__)
+            # flow narrowing: `if x is None: <leaves the block>` — the REST of the block runs with x not None
+            if (isinstance(s, ast.If) and not s.orelse and self.leaves(s.body) and self.static_test(s.test) is None
+                    and stmts[k + 1:]):
+                nt = self.none_test(s.test)
+                if nt is not None and nt[1]:
+                    name = nt[0]
+                    v = self.ident(name)
+                    t_opt = self.lookup(name)
+                    ln = self.block(s.body)
+                    self.push()
+                    self.scopes[-1][name] = t_opt[1]
+                    ls = self.block(stmts[k + 1:], scope=False)
+                    self.pop()
+                    out.append("-- " + ast.unparse(s).split("\n")[0] + "   (the rest of the block: %s is not None)" % name)
+                    out += ["match %s with" % v, "| none =>"] + _ind(ln) + ["| some %s =>" % v] + _ind(ls)
+                    break
             lines = m(s)
             if lines:
                 out.append("-- " + ast.unparse(s).split("\n")[0])
@@ -915,6 +1472,41 @@ class _Fn:
             self.pop()
         return out or ["pure ()"]
 
+    @staticmethod
+    def leaves(stmts):
+        """does control always leave the enclosing block (return / raise / continue / break)"""
+        if not stmts:
+            return False
+        s = stmts[-1]
+        if isinstance(s, (ast.Return, ast.Raise, ast.Continue, ast.Break)):
+            return True
+        if isinstance(s, ast.If):
+            return bool(s.orelse) and _Fn.leaves(s.body) and _Fn.leaves(s.orelse)
+        return False
+
+    def is_fresh(self, node):
+        """does the expression build a NEW container (so that binding it to a mutated name creates no alias)"""
+        if isinstance(node, (ast.List, ast.ListComp, ast.Set, ast.SetComp, ast.Dict, ast.DictComp, ast.BinOp)):
+            return True
+        if isinstance(node, ast.Subscript):
+            return isinstance(node.slice, ast.Slice)
+        if isinstance(node, ast.IfExp):
+            return self.is_fresh(node.body) and self.is_fresh(node.orelse)
+        if isinstance(node, ast.Call):
+            f = node.func
+            if isinstance(f, ast.Name) and self.lookup(f.id) is None:
+                if f.id in ("list", "set", "dict", "sorted", "deque", "array", "frozenset"):
+                    return True
+                try:
+                    obj = self.resolve_global(f.id)
+                except KeyError:
+                    return False
+                sp = self.spec if obj is self.spec.fn else self.module_specs.get(id(obj))
+                return sp is not None and getattr(sp, "ret_fresh", False)
+            if isinstance(f, ast.Attribute) and f.attr in ("union", "intersection", "difference", "copy", "split"):
+                return True
+        return False
+
     def assign_name(self, node, name, term, t):
         """`name = term` → let / let mut / :="""
         if name in self.spec.fixed or name in self.loopvars:
@@ -922,11 +1514,16 @@ class _Fn:
         old = self.lookup(name)
         if old is not None:
             return ["%s := %s" % (self.ident(name), self.coerce(node, term, t, old))]
-        if _has_unk(t):
-            self.fail(node, "cannot infer the element type of `%s` (annotate it: `%s: List[T] = []`)" % (name, name))
         self.dead.discard(name)
         self.scopes[-1][name] = t
         mut = "mut " if self.nassign.get(name, 0) > 1 else ""
+        if _has_unk(t):
+            # an empty display: its element type is fixed by the first add/append/membership test (`retype`); the
+            # declaration is completed at the end of the translation
+            if term != "[]" or t[0] not in ("list", "set", "dict"):
+                self.fail(node, "cannot infer the type of `%s` (annotate it: `%s: List[T] = []`)" % (name, name))
+            self.pending.append((name, self.scopes[-1]))
+            return ["let %s%s : @@T%d@@ := []" % (mut, self.ident(name), len(self.pending) - 1)]
         return ["let %s%s : %s := %s" % (mut, self.ident(name), lean_type(t), term)]
 
     def s_Assign(self, node):
@@ -942,7 +1539,23 @@ class _Fn:
         return self.assign_to(node, node.target, node.value, self.annotation(node.annotation))
 
     def assign_to(self, node, target, value, ann):
+        if (isinstance(target, ast.Name) and isinstance(value, ast.Call) and isinstance(value.func, ast.Attribute)
+                and value.func.attr in ("popleft", "pop") and isinstance(value.func.value, ast.Name)):
+            return self.pop_stmt(node, target.id, value)
+        in_stmt = isinstance(value, ast.Call) and isinstance(target, ast.Name)
+        if in_stmt and isinstance(value.func, ast.Name) and self.lookup(value.func.id) is None:
+            try:
+                obj = self.resolve_global(value.func.id)
+            except KeyError:
+                obj = None
+            sp = self.spec if obj is self.spec.fn else self.module_specs.get(id(obj))
+            if sp is not None and sp.fn is obj and sp.outparams:
+                pre, x, t = self.spec_call(value, sp, recursive=sp is self.spec, in_stmt=True)
+                return pre + self.assign_name(node, target.id, x, t)
         pre, x, t = self.expr(value)
+        if isinstance(target, ast.Name) and target.id in self.mutated and t[0] in ("list", "set", "dict") \
+                and not self.is_fresh(value):
+            self.fail(node, "a mutated container is bound to a value that may be shared with another name")
         if isinstance(target, ast.Name):
             if ann is not None and self.lookup(target.id) is None:
                 x, t = self.coerce(node, x, t, ann), ann
@@ -958,6 +1571,17 @@ class _Fn:
         if isinstance(target, ast.Subscript) and isinstance(target.value, ast.Name):
             name = target.value.id
             tl = self.lookup(name)
+            if tl is not None and tl[0] == "dict" and name not in self.iterating and not isinstance(target.slice, ast.Slice):
+                p2, i, ti = self.expr(target.slice)      # Python: value first, then the key
+                if _has_unk(tl):
+                    tl = Dict(ti, t)
+                    self.hashable(node, ti)
+                    self.retype(name, tl)
+                if _contains_kind(t, ("list", "set", "dict")) and not self.is_fresh(value):
+                    self.fail(node, "a container that may be shared is stored in a dict")
+                v = self.ident(name)
+                return pre + p2 + ["%s := pyDictSet %s %s %s" % (v, v, self.coerce(node, i, ti, tl[1]),
+                                                                 self.coerce(node, x, t, tl[2]))]
             if tl is None or tl[0] != "list" or name in self.iterating or isinstance(target.slice, ast.Slice):
                 self.fail(node, "item assignment")
             p2, i, ti = self.expr(target.slice)
@@ -968,6 +1592,49 @@ class _Fn:
             v = self.ident(name)
             return pre + p2 + ["%s ← pySetItem %s %s %s" % (v, v, i, self.coerce(node, x, t, tl[1]))]
         self.fail(node, "assignment target")
+
+    def retype(self, name, t):
+        """an empty display whose element type becomes known at its first use (`xs = set()` … `xs.add(e)`)"""
+        for sc in reversed(self.scopes):
+            if name in sc:
+                sc[name] = t
+                return
+
+    def pop_stmt(self, node, target, call):
+        """`x = xs.popleft()` / `x = xs.pop(0)` / `x = xs.pop()` on a local list used as a queue/stack"""
+        name = call.func.value.id
+        tl = self.lookup(name)
+        if tl is None or tl[0] != "list" or _has_unk(tl) or name in self.iterating or call.keywords:
+            self.fail(node, "pop on something that is not a local list")
+        if call.func.attr == "popleft" and not call.args:
+            f = "pyPopLeft"
+        elif call.func.attr == "pop" and not call.args:
+            f = "pyPop"
+        elif call.func.attr == "pop" and len(call.args) == 1 and isinstance(call.args[0], ast.Constant) \
+                and call.args[0].value == 0 and not isinstance(call.args[0].value, bool):
+            f = "pyPopLeft"
+        else:
+            self.fail(node, "pop with a computed index")
+        self.effect = True
+        r = self.fresh()
+        v = self.ident(name)
+        return ["let %s ← %s %s" % (r, f, v), "%s := %s.2" % (v, r)] + self.assign_name(node, target, "%s.1" % r, tl[1])
+
+    def s_While(self, node):
+        """`while c: body` → at most `fuel` rounds; PyErr.fuel if the loop has not ended by then"""
+        if node.orelse:
+            self.fail(node, "while-else")
+        self.effect = True
+        flag = "w%d_" % (len([k for k in self.loopkinds]) + 1) + self.fresh()
+        pre, c = self.test(node.test)
+        self.loopkinds.append(("while", flag))
+        self.iterating.append(None)
+        body = self.block(node.body)
+        self.iterating.pop()
+        self.loopkinds.pop()
+        return (["let mut %s := false" % flag, "for _ in List.replicate fuel () do"]
+                + _ind(pre + ["if !%s then" % c] + _ind(["%s := true" % flag, "break"]) + body)
+                + ["if !%s then" % flag] + _ind(["throw PyErr.fuel"]))
 
     def s_AugAssign(self, node):
         if not isinstance(node.target, ast.Name) or self.lookup(node.target.id) is None:
@@ -986,6 +1653,16 @@ class _Fn:
         v = node.value
         if isinstance(v, ast.Constant) and isinstance(v.value, str):
             return []          # docstring
+        if isinstance(v, ast.Call) and isinstance(v.func, ast.Name) and self.lookup(v.func.id) is None:
+            try:
+                obj = self.resolve_global(v.func.id)
+            except KeyError:
+                obj = None
+            sp = self.spec if obj is self.spec.fn else self.module_specs.get(id(obj))
+            if sp is not None and sp.fn is obj:
+                # a call for its effect on the mutated arguments (the result, if any, is dropped)
+                pre, x, t = self.spec_call(v, sp, recursive=sp is self.spec, in_stmt=True)
+                return pre or ["pure ()"]
         if (isinstance(v, ast.Call) and isinstance(v.func, ast.Attribute) and isinstance(v.func.value, ast.Name)
                 and v.func.attr in ("append", "extend") and len(v.args) == 1 and not v.keywords):
             name = v.func.value.id
@@ -994,17 +1671,61 @@ class _Fn:
                 self.fail(node, "append/extend on something that is not a local list (or is being iterated)")
             if v.func.attr == "append":
                 pre, x, t = self.expr(v.args[0])
+                if _has_unk(tl):
+                    tl = Lst(t)
+                    self.retype(name, tl)
+                if _contains_kind(t, ("list", "set", "dict")) and not self.is_fresh(v.args[0]):
+                    self.fail(node, "a container that may be shared is appended to a list")
                 x = "[%s]" % self.coerce(node, x, t, tl[1])
             else:
                 pre, x, t = self.iterable(v.args[0])
+                if _has_unk(tl):
+                    tl = Lst(t)
+                    self.retype(name, tl)
                 x = self.coerce(node, x, Lst(t), tl)
             return pre + ["%s := %s ++ %s" % (self.ident(name), self.ident(name), x)]
-        self.fail(node, "expression statement (only append/extend on a local list are translated)")
+        if (isinstance(v, ast.Call) and isinstance(v.func, ast.Attribute) and isinstance(v.func.value, ast.Name)
+                and v.func.attr in ("add", "update") and len(v.args) == 1 and not v.keywords):
+            name = v.func.value.id
+            tl = self.lookup(name)
+            if tl is None or tl[0] != "set" or name in self.iterating:
+                self.fail(node, "add/update on something that is not a local set (or is being iterated)")
+            if v.func.attr == "add":
+                pre, x, t = self.expr(v.args[0])
+                f = "pySetAdd"
+            else:
+                pre, x, t = self.iterable(v.args[0], unordered_ok=True)
+                f = "pySetUpdate"
+                if t == UNK:
+                    return pre or ["pure ()"]
+            if _has_unk(tl):
+                tl = Set(t)
+                self.retype(name, tl)
+            self.hashable(node, tl[1])
+            x = self.coerce(node, x, t, tl[1]) if f == "pySetAdd" else self.coerce(node, x, Lst(t), Lst(tl[1]))
+            return pre + ["%s := %s %s %s" % (self.ident(name), f, self.ident(name), x)]
+        if (isinstance(v, ast.Call) and isinstance(v.func, ast.Attribute) and isinstance(v.func.value, ast.Name)
+                and v.func.attr == "setdefault" and len(v.args) == 2 and not v.keywords):
+            name = v.func.value.id
+            tl = self.lookup(name)
+            if tl is None or tl[0] != "dict" or _has_unk(tl) or name in self.iterating:
+                self.fail(node, "setdefault on something that is not a local dict")
+            p1, k, tk = self.expr(v.args[0])
+            p2, d, td = self.expr(v.args[1])
+            if _contains_kind(td, ("list", "set", "dict")) and not self.is_fresh(v.args[1]):
+                self.fail(node, "a container that may be shared is stored in a dict")
+            n = self.ident(name)
+            return p1 + p2 + ["%s := pyDictSetDefault %s %s %s" % (n, n, self.coerce(node, k, tk, tl[1]),
+                                                                   self.coerce(node, d, td, tl[2]))]
+        self.fail(node, "expression statement (only append/extend/add/update/setdefault on a local container and calls "
+                        "of translated functions are translated)")
 
     def s_Pass(self, node):
         return ["pure ()"]
 
     def s_Break(self, node):
+        if self.loopkinds and self.loopkinds[-1][0] == "while":
+            return ["%s := true" % self.loopkinds[-1][1], "break"]
         return ["break"]
 
     def s_Continue(self, node):
@@ -1016,9 +1737,14 @@ class _Fn:
             pre = []
         else:
             pre, x, t = self.expr(node.value, alias_ok=True, in_return=True)
+        outs = [self.ident(p) for p in self.spec.outparams]
         if self.spec.ret == NONE and t == NONE:
-            return pre + ["return ()"]
-        return pre + ["return %s" % self.coerce(node, x, t, self.spec.ret)]
+            return pre + ["return (%s)" % ", ".join(outs)]
+        return pre + ["return %s" % self.with_outs(self.coerce(node, x, t, self.spec.ret))]
+
+    def with_outs(self, term):
+        outs = [self.ident(p) for p in self.spec.outparams]
+        return "(%s)" % ", ".join([term] + outs) if outs else term
 
     def s_Raise(self, node):
         if node.exc is None or node.cause is not None:
@@ -1075,17 +1801,58 @@ class _Fn:
     def s_For(self, node):
         if node.orelse:
             self.fail(node, "for-else")
-        pre, xs, t = self.iterable(node.iter)
+        pre, xs, t = self.iterable(node.iter, unordered_ok=self.accumulates_only(node))
         self.push()
         names = [n.id for n in ast.walk(node.target) if isinstance(n, ast.Name)]
         pat = self.bind_target(node.target, t, loopvar=True)
         self.loopvars += names
         it = node.iter.id if isinstance(node.iter, ast.Name) else None
         self.iterating.append(it)
+        self.loopkinds.append(("for", None))
         body = self.block(node.body)
+        self.loopkinds.pop()
         self.iterating.pop()
         self.pop()
         return pre + ["for %s in %s do" % (pat, xs)] + _ind(body)
+
+    def accumulates_only(self, loop):
+        """Is the result of this `for` independent of the ORDER of the iteration?  Accepted shape: the body consists
+        of `t.add(e)` / `t.update(e)` on sets, `pass`, `continue`, and `if c:` over such statements, where no `c`/`e`
+        reads a name the loop changes, and nothing in the body can raise (checked when the body is translated: the
+        caller only uses this for set-typed iterables, and a raising body then fails below)."""
+        changed = set()
+        reads = []
+
+        def ok(stmts):
+            for s in stmts:
+                if isinstance(s, (ast.Pass, ast.Continue)):
+                    continue
+                if isinstance(s, ast.If):
+                    reads.append(s.test)
+                    if not ok(s.body) or not ok(s.orelse):
+                        return False
+                    continue
+                if (isinstance(s, ast.Expr) and isinstance(s.value, ast.Call) and isinstance(s.value.func, ast.Attribute)
+                        and s.value.func.attr in ("add", "update") and isinstance(s.value.func.value, ast.Name)
+                        and len(s.value.args) == 1 and not s.value.keywords):
+                    tl = self.lookup(s.value.func.value.id)
+                    if tl is None or tl[0] != "set":
+                        return False
+                    changed.add(s.value.func.value.id)
+                    reads.append(s.value.args[0])
+                    continue
+                return False
+            return True
+        if not ok(loop.body):
+            return False
+        for e in reads:
+            for n in ast.walk(e):
+                if isinstance(n, ast.Name) and n.id in changed:
+                    return False
+                if isinstance(n, (ast.Subscript, ast.BinOp)) or (isinstance(n, ast.Call) and not (
+                        isinstance(n.func, ast.Name) and n.func.id in ("len", "str", "tuple"))):
+                    return False          # anything that could raise (indexing, division, calls): refuse
+        return True
 
     # ------------------------------------------------------------------------------------------------ function
     @staticmethod
@@ -1110,25 +1877,39 @@ class _Fn:
         body = self.node.body
         single = None
         stmts = [s for s in body if not (isinstance(s, ast.Expr) and isinstance(s.value, ast.Constant))]
-        if len(stmts) == 1 and isinstance(stmts[0], ast.Return) and stmts[0].value is not None and not head:
-            pre, x, t = self.expr(stmts[0].value, alias_ok=True)
+        if (len(stmts) == 1 and isinstance(stmts[0], ast.Return) and stmts[0].value is not None and not head
+                and not self.spec.fuel and not self.spec.outparams):
+            pre, x, t = self.expr(stmts[0].value, alias_ok=True, in_return=True)
             if not pre:
                 single = self.coerce(stmts[0], x, t, self.spec.ret)
+        # does every `return` hand out a NEW container (callers may bind the result to a name they mutate)
+        self.spec.ret_fresh = all(
+            r.value is None or self.is_fresh(r.value)
+            or (isinstance(r.value, ast.Name) and r.value.id in self.mutated and r.value.id not in dict(self.spec.params))
+            for r in ast.walk(self.node) if isinstance(r, ast.Return)) or not _contains_kind(self.spec.ret, ("list", "set", "dict"))
         if single is None:
             self.scopes = [dict(self.scopes[0])]
-            self.effect, self.tmp, self.dead = False, 0, set()
+            self.effect, self.tmp, self.dead, self.pending = bool(self.spec.fuel), 0, set(), []
             lines = head + self.block(body, scope=False)
             if not self.terminates(body):
                 if self.spec.ret == NONE:
-                    lines.append("return ()")
+                    lines.append("return (%s)" % ", ".join(self.ident(p) for p in self.spec.outparams))
                 elif self.spec.ret[0] == "opt":
-                    lines.append("return none")
+                    lines.append("return %s" % self.with_outs("none"))
                 else:
                     raise Unsupported("%s: control can reach the end of the function (returns None) but the declared "
                                       "result type is not Optional" % self.spec.name)
+            for k, (name, sc) in enumerate(self.pending):
+                if _has_unk(sc[name]):
+                    raise Unsupported("%s: cannot infer the element type of `%s` (annotate it: `%s: List[T] = []`)"
+                                      % (self.spec.name, name, name))
+                lines = [ln.replace("@@T%d@@" % k, lean_type(sc[name])) for ln in lines]
+            if self.recursive:
+                lines = ["match fuel with", "| 0 => throw PyErr.fuel", "| fuel + 1 => do"] + _ind(lines)
         self.spec.monadic = self.effect
-        ret = lean_type(self.spec.ret, paren=self.effect)
-        params = "".join(" (%s : %s)" % (self.ident(p), lean_type(t)) for p, t in self.spec.params)
+        ret = lean_type(self.spec.lean_ret(), paren=self.effect)
+        params = (" (fuel : Nat)" if self.spec.fuel else "") \
+            + "".join(" (%s : %s)" % (self.ident(p), lean_type(t)) for p, t in self.spec.params)
         mod = getattr(self.spec.fn, "__module__", "?")
         qual = getattr(self.spec.fn, "__qualname__", self.spec.name)
         fixed = "".join(", %s=%r" % kv for kv in sorted(self.spec.fixed.items()))
@@ -1137,7 +1918,10 @@ class _Fn:
             out.append("def %s%s : %s :=" % (self.spec.name, params, ret))
             out.append("  " + single)
         elif self.effect:
-            out.append("def %s%s : Except PyErr %s := do" % (self.spec.name, params, ret))
+            if self.recursive:
+                out.append("def %s%s : Except PyErr %s :=" % (self.spec.name, params, ret))
+            else:
+                out.append("def %s%s : Except PyErr %s := do" % (self.spec.name, params, ret))
             out += _ind(lines)
         else:
             out.append("def %s%s : %s := Id.run do" % (self.spec.name, params, ret))
@@ -1145,21 +1929,35 @@ class _Fn:
         return out
 
 
-def translate_function(spec, module_specs=None):
+def translate_function(spec, module_specs=None, structs=None):
     """Lean source lines of one definition"""
-    return _Fn(spec, module_specs or {}).translate()
+    if structs is None:
+        structs = _struct_classes([spec])
+    return _Fn(spec, module_specs or {}, structs).translate()
 
 
-def translate_module(specs, namespace, imports=()):
-    """Text of a whole Lean file: the translations of `specs` (in this order; a function may call earlier ones)."""
+def _struct_classes(specs):
+    """python class -> Struct type, for every Struct with a `pyclass` mentioned in the Specs"""
+    found = {}
+    for sp in specs:
+        for t in [t for _, t in sp.params] + [sp.ret]:
+            _structs_of(t, found)
+    return {t[3]: t for t in found.values() if t[3] is not None}
+
+
+def translate_module(specs, namespace, imports=(), preamble=()):
+    """Text of a whole Lean file: the translations of `specs` (in this order; a function may call earlier ones).
+    `preamble`: Lean lines placed before the namespace (the selftest declares its sample structures there)."""
     out = ["/- GENERATED by harness/common/py2lean.py from the current source text of /repo. Do not edit.",
            "   Accepted Python subset and semantic assumptions: see the docstring of py2lean.py and TRANSLATOR.md. -/",
            "import Verif.Common.PyRt"]
     out += ["import %s" % i for i in imports]
-    out += ["", "set_option linter.unusedVariables false", "", "namespace %s" % namespace, "open Verif.PyRt", ""]
+    out += ["", "set_option linter.unusedVariables false", ""] + list(preamble) + ["namespace %s" % namespace,
+                                                                                   "open Verif.PyRt", ""]
     done = {}
+    structs = _struct_classes(specs)
     for sp in specs:
-        out += translate_function(sp, done)
+        out += translate_function(sp, done, structs)
         out.append("")
         done[id(sp.fn)] = sp
     out.append("end %s" % namespace)
